@@ -46,7 +46,7 @@ fn parse_hist(l: &str) -> Option<Hist> {
         if let Some(v) = t.strip_prefix("w=") { w = match v { "16" => 16, "32" => 32, _ => 64 }; }
     }
     for t in opstr.split_whitespace() {
-        if t.starts_with("class=") { continue; }
+        if t.starts_with("class=") || t.starts_with("regime=") { continue; }
         let op = if let Some(r) = t.strip_prefix("I:") {
             let mut rows = vec![];
             for x in r.split(',') {
@@ -285,42 +285,45 @@ fn tmp_dir(tag: &str) -> std::path::PathBuf {
 
 
 // ------------------------------------------------------------------ mirror of Model/AutoInc.v
-// (used only to label cases with their defect class and to steer the generator; the judgement
-// is made in Coq)
-struct StmtOut { written: Vec<(i64, bool)>, ok: bool, class: u8, ai: u64 }
+// (used only to steer the generator, to bucket the cases by the former defect regimes and to tell
+// the search mode whether the implementation behaves as modelled; the judgement is made in Coq)
+struct StmtOut { written: Vec<(i64, bool)>, ok: bool, regime: u8, ai: u64 }
 
-fn mirror_stmt(ai: u64, rows: &[Option<i64>], ext: Option<usize>) -> StmtOut {
-    let (mut cur, mut max) = (ai, ai);
+fn limit(w: u8) -> u64 { match w { 16 => i16::MAX as u64, 32 => i32::MAX as u64, _ => i64::MAX as u64 } }
+
+/// one INSERT statement after the repairs: explicit ids raise cur and max, the header is written as
+/// soon as ids are handed out, generation and explicit ids are bounded by the column type.
+/// regime = which of the former defect classes (1,2,3,5) the statement would have entered.
+fn mirror_stmt(w: u8, ai: u64, rows: &[Option<i64>], ext: Option<usize>) -> StmtOut {
+    let lim = limit(w);
+    let (mut cur, mut max, mut hdr) = (ai, ai, ai);
     let mut written = vec![];
-    let mut class = 0u8;
+    let mut regime = 0u8;
     let mut ok = true;
+    let mut ahead = false;
     for (i, r) in rows.iter().enumerate() {
-        if ext == Some(i) {
-            // the row's id is assigned (which may itself fail), then the row fails
-            ok = false;
-            break;
-        }
         match r {
             None => {
-                if class == 0 {
-                    if cur >= i64::MAX as u64 { class = 3; } else if max > cur { class = 1; }
-                }
-                match cur.checked_add(1) {
-                    None => { ok = false; break; }
-                    Some(c) => { cur = c; if c > max { max = c; } written.push((c as i64, true)); }
+                if regime == 0 && ext != Some(i) && ahead { regime = 1; }
+                match cur.checked_add(1).filter(|c| *c <= lim) {
+                    None => { if regime == 0 { regime = if w == 64 { 3 } else { 5 }; } ok = false; break; }
+                    Some(c) => { cur = c; if c > max { max = c; } }
                 }
             }
             Some(v) => {
                 if *v < 0 { ok = false; break; }
+                if (*v as u64) > lim { if regime == 0 { regime = 5; } ok = false; break; }
                 if (*v as u64) > max { max = *v as u64; }
-                written.push((*v, false));
+                if (*v as u64) > cur { cur = *v as u64; ahead = true; }
             }
         }
+        if max > hdr { hdr = max; }
+        if ext == Some(i) { ok = false; break; }
+        written.push((if r.is_none() { cur as i64 } else { r.unwrap() }, r.is_none()));
     }
-    let mut nai = ai;
-    if ok { if max > 0 && max > ai { nai = max; } }
-    else if class == 0 && written.iter().any(|(v, _)| *v as i128 > ai as i128) { class = 2; }
-    StmtOut { written, ok, class, ai: nai }
+    if !ok && regime == 0 && written.iter().any(|(v, _)| *v as i128 > ai as i128) { regime = 2; }
+    let nai = if ok && max > 0 && max > hdr { max } else { hdr };
+    StmtOut { written, ok, regime, ai: nai }
 }
 
 fn rows_of(op: &Op) -> Option<Vec<Option<i64>>> {
@@ -331,51 +334,44 @@ fn rows_of(op: &Op) -> Option<Vec<Option<i64>>> {
     }
 }
 
-/// (observed traces [stored, returned], mirror agrees with the observation, first defect class entered)
+/// (observed traces [stored, returned], mirror agrees with the observation, former defect regime touched first)
 fn judge(h: &Hist, obs: &[Obs]) -> (Vec<(i64, bool)>, Vec<(i64, bool)>, bool, u8) {
     let w = h.w;
     let mut stored = vec![];
     let mut returned = vec![];
     let mut agrees = obs.len() == h.ops.len();
-    let mut class = 0u8;
-    let mut out_of_range = false;
+    let mut regime = 0u8;
     let mut ai = 0u64;
-    let fits = |v: i64| wrap(w, v) == v;
-    // insert_cached / insert_batch: ids stored as given (wrapped to the column width), counter untouched
-    fn bulk(w: u8, ai: u64, rows: &[Option<i64>], seen: &[Option<i64>], tr: &mut Vec<(i64, bool)>, tr2: &mut Vec<(i64, bool)>, agrees: &mut bool, class: &mut u8, oor: &mut bool) {
-        for (r, s) in rows.iter().zip(seen.iter()) {
-            if r.map(|v| wrap(w, v)) != *s { *agrees = false; }
-            if let Some(id) = s { tr.push((*id, r.is_none())); tr2.push((*id, r.is_none())); }
-            if let Some(v) = r {
-                if *class == 0 && (*v as i128) > ai as i128 { *class = 4; }
-                if wrap(w, *v) != *v { *oor = true; }
-            }
-        }
-    }
     for (op, o) in h.ops.iter().zip(obs.iter()) {
         if let Obs::Weird(_) = o { agrees = false; }
         match (op, o) {
-            (Op::Batch(rows), Obs::BatchOk(seen)) => { if seen.len() != rows.len() { agrees = false; } bulk(w, ai, rows, seen, &mut stored, &mut returned, &mut agrees, &mut class, &mut out_of_range); }
-            (Op::Batch(rows), Obs::BatchErr(seen, _)) => { if seen.len() >= rows.len() { agrees = false; } bulk(w, ai, rows, seen, &mut stored, &mut returned, &mut agrees, &mut class, &mut out_of_range); }
+            (Op::Batch(rows), Obs::BatchOk(seen)) => {
+                // insert_batch: ids stored as given (wrapped to the column width); counter raised to the largest positive id
+                if seen.len() != rows.len() { agrees = false; }
+                for (r, s) in rows.iter().zip(seen.iter()) {
+                    if r.map(|v| wrap(w, v)) != *s { agrees = false; }
+                    if let Some(id) = s { stored.push((*id, r.is_none())); returned.push((*id, r.is_none())); }
+                    if let Some(v) = r { if regime == 0 && (*v as i128) > ai as i128 { regime = 4; } }
+                }
+                let m = rows.iter().filter_map(|r| *r).filter(|v| *v > 0).max().unwrap_or(0) as u64;
+                if m > ai { ai = m; }
+            }
             (Op::Prep(rows), Obs::Prep(outs)) => {
+                // every execution is an ordinary single-row INSERT
                 if outs.len() != rows.len() { agrees = false; }
                 for (j, (r, out)) in rows.iter().zip(outs.iter()).enumerate() {
-                    if j == 0 {
-                        let m = mirror_stmt(ai, &[*r], if out.is_none() { Some(0) } else { None });
-                        match out {
-                            Some(Some(id)) => {
-                                stored.push((*id, r.is_none())); returned.push((*id, r.is_none()));
-                                if !(m.ok && m.written.len() == 1 && wrap(w, m.written[0].0) == *id) { agrees = false; }
-                            }
-                            Some(None) => { agrees = false; }
-                            None => { if m.ok { agrees = false; } }
+                    if j > 0 && regime == 0 { if let Some(v) = r { if (*v as i128) > ai as i128 { regime = 4; } } }
+                    let m = mirror_stmt(w, ai, &[*r], if out.is_none() { Some(0) } else { None });
+                    match out {
+                        Some(Some(id)) => {
+                            stored.push((*id, r.is_none())); returned.push((*id, r.is_none()));
+                            if !(m.ok && m.written.len() == 1 && wrap(w, m.written[0].0) == *id) { agrees = false; }
                         }
-                        if m.written.iter().any(|x| !fits(x.0)) { out_of_range = true; }
-                        if class == 0 { class = m.class; }
-                        ai = m.ai;
-                    } else if let Some(seen) = out {
-                        bulk(w, ai, &[*r], &[*seen], &mut stored, &mut returned, &mut agrees, &mut class, &mut out_of_range);
+                        Some(None) => { agrees = false; }
+                        None => { if m.ok { agrees = false; } }
                     }
+                    if regime == 0 { regime = m.regime; }
+                    ai = m.ai;
                 }
             }
             (Op::Batch(_), _) | (Op::Prep(_), _) => { agrees = false; }
@@ -388,19 +384,17 @@ fn judge(h: &Hist, obs: &[Obs]) -> (Vec<(i64, bool)>, Vec<(i64, bool)>, bool, u8
                 };
                 for (r, id) in rows.iter().zip(st.iter()) { stored.push((*id, r.is_none())); }
                 for (r, id) in rows.iter().zip(ret.as_ref().unwrap_or(&st).iter()) { returned.push((*id, r.is_none())); }
-                let m = mirror_stmt(ai, &rows, ext);
+                let m = mirror_stmt(w, ai, &rows, ext);
                 let mids: Vec<i64> = m.written.iter().map(|x| x.0).collect();
                 let mst: Vec<i64> = mids.iter().map(|v| wrap(w, *v)).collect();
                 if mst != st || m.ok != ext.is_none() { agrees = false; }
                 if let Some(ret) = &ret { if *ret != mids { agrees = false; } }
-                if mids.iter().any(|v| !fits(*v)) { out_of_range = true; }
-                if class == 0 { class = m.class; }
+                if regime == 0 { regime = m.regime; }
                 ai = m.ai;
             }
         }
     }
-    if class == 0 && out_of_range { class = 5; }
-    (stored, returned, agrees, class)
+    (stored, returned, agrees, regime)
 }
 
 fn fresh_increasing(trace: &[(i64, bool)]) -> bool {
@@ -464,21 +458,21 @@ fn case_term(h: &Hist, obs: &[Obs]) -> String {
 // ------------------------------------------------------------------ generators
 const I64MAX: i64 = i64::MAX;
 
-struct G<'a> { rng: &'a mut Rng, ai: u64, used: Vec<i64>, in_txn: bool, ops: Vec<Op> }
+struct G<'a> { rng: &'a mut Rng, w: u8, ai: u64, used: Vec<i64>, in_txn: bool, ops: Vec<Op> }
 
 impl<'a> G<'a> {
-    fn new(rng: &'a mut Rng) -> Self { G { rng, ai: 0, used: vec![], in_txn: false, ops: vec![] } }
+    fn new(rng: &'a mut Rng, w: u8) -> Self { G { rng, w, ai: 0, used: vec![], in_txn: false, ops: vec![] } }
     /// book-keeping with the mirror, assuming only the intended failures happen
     fn push_ins(&mut self, rows: Vec<(Option<i64>, bool)>) {
         let ids: Vec<Option<i64>> = rows.iter().map(|r| r.0).collect();
         let ext = rows.iter().position(|r| !r.1);
-        let m = mirror_stmt(self.ai, &ids, ext);
+        let m = mirror_stmt(self.w, self.ai, &ids, ext);
         for (v, _) in &m.written { self.used.push(*v); }
         self.ai = m.ai;
         self.ops.push(Op::Ins(rows));
     }
     fn push_absent(&mut self, k: usize) {
-        let m = mirror_stmt(self.ai, &vec![None; k], None);
+        let m = mirror_stmt(self.w, self.ai, &vec![None; k], None);
         for (v, _) in &m.written { self.used.push(*v); }
         self.ai = m.ai;
         self.ops.push(Op::InsAbsent(k));
@@ -516,18 +510,16 @@ impl<'a> G<'a> {
         if rows.is_empty() { rows.push((None, true)); }
         self.push_ins(rows);
     }
-    #[allow(dead_code)]
     fn push_batch(&mut self, rows: Vec<Option<i64>>) {
-        for r in &rows { if let Some(v) = r { self.used.push(*v); } }
+        for r in &rows { if let Some(v) = r { self.used.push(*v); if *v > 0 && (*v as u64) > self.ai { self.ai = *v as u64; } } }
         self.ops.push(Op::Batch(rows));
     }
     fn push_prep(&mut self, rows: Vec<Option<i64>>) {
-        if let Some(r0) = rows.first() {
-            let m = mirror_stmt(self.ai, &[*r0], None);
+        for r in rows.iter() {
+            let m = mirror_stmt(self.w, self.ai, &[*r], None);
             for (v, _) in &m.written { self.used.push(*v); }
             self.ai = m.ai;
         }
-        for r in rows.iter().skip(1) { if let Some(v) = r { self.used.push(*v); } }
         self.ops.push(Op::Prep(rows));
     }
     /// ids for insert_cached / insert_batch that keep the history outside class 4: NULL, unused ids
@@ -548,10 +540,11 @@ impl<'a> G<'a> {
     fn bulk_clean(&mut self) {
         let n = 1 + self.rng.below(3) as usize;
         let rows = self.bulk_rows_clean(n);
-        // (insert_batch is not generated: rows it loads are not reliably visible to SELECT - with two
-        // BIGINT columns they never show up -, so what the column holds cannot be observed; `T:` stays
-        // in the replay language for probing)
-        // first execution of a prepared statement is an ordinary INSERT: NULL or an id above the counter
+        // insert_batch is generated only for SMALLINT / INTEGER id columns: with two BIGINT columns
+        // the rows it loads (written without the MVCC header) never show up in SELECT, so what the
+        // column holds cannot be observed there (`T:` stays in the replay language for probing)
+        if self.w != 64 && self.rng.chance(1, 2) { self.push_batch(rows); return; }
+        // prepared statement: every execution is an ordinary INSERT
         let first = if self.rng.chance(2, 3) { None } else { Some(self.fresh_above()) };
         let mut all = vec![first];
         all.extend(rows);
@@ -582,7 +575,7 @@ fn gen_history(rng: &mut Rng, thorough: bool) -> (Hist, &'static str) {
     let fam = rng.below(100);
     let maxlen = if thorough { 18 } else { 10 };
     let len = 2 + rng.below(maxlen) as usize;
-    let mut g = G::new(rng);
+    let mut g = G::new(rng, w);
     let kind: &'static str;
     if fam < 30 {
         kind = "clean_mix";           // inserts, deletes, transactions, reopen, bulk paths: all outside the classes
@@ -660,7 +653,11 @@ fn gen_history(rng: &mut Rng, thorough: bool) -> (Hist, &'static str) {
         while g.ops.len() < len {
             match g.rng.below(8) {
                 0 | 1 => g.bulk_clean(),
-                2 => { let v = g.fresh_above(); let mut rows = vec![Some(g.fresh_above())]; rows.extend(g.bulk_rows_clean(1)); rows.push(Some(v + 7)); g.push_prep(rows); }
+                2 => {
+                    let v = g.fresh_above();
+                    if g.w != 64 { let mut rows = g.bulk_rows_clean(1); rows.push(Some(v)); g.push_batch(rows); }
+                    else { let mut rows = vec![Some(g.fresh_above())]; rows.extend(g.bulk_rows_clean(1)); rows.push(Some(v + 7)); g.push_prep(rows); }
+                }
                 3 => { let v = g.fresh_above(); let k = g.rng.below(2) as usize; let mut rows = vec![None]; rows.extend(g.bulk_rows_clean(k)); rows.push(Some(v)); g.push_prep(rows); }
                 4 => g.delete(),
                 5 => { let c = g.rng.chance(1, 2); g.txn(c) }
@@ -723,11 +720,11 @@ fn gen(a: &Args) {
     for ((h, kind), obs) in hs.into_iter().zip(all_obs.into_iter()) {
         let (trace, _, _, class) = judge(&h, &obs);
         gens_total += trace.iter().filter(|x| x.1).count() as u64;
-        if class != 0 { in_class += 1; w.count(&format!("(in class {})", class), 1); }
+        if class != 0 { in_class += 1; w.count(&format!("(former class {} regime)", class), 1); }
         if obs.iter().any(|o| matches!(o, Obs::Weird(_))) { w.count("(weird)", 1); }
         w.push(case_term(&h, &obs), show_hist(&h), nontrivial(&h, &obs), kind);
     }
-    w.finish(&[("cases_in_known_classes".to_string(), in_class.to_string()), ("generated_ids_observed".to_string(), gens_total.to_string())]);
+    w.finish(&[("cases_in_former_defect_regimes".to_string(), in_class.to_string()), ("generated_ids_observed".to_string(), gens_total.to_string())]);
 }
 
 /// run the histories on the implementation, several databases at a time (each worker has its own
@@ -762,7 +759,6 @@ fn search(a: &Args) {
     let mut tried = 0u64;
     // each history costs a database on disk: the budget counts operations, not histories
     let budget = (a.budget / 40).clamp(500, 60_000);
-    let mut known_kept = 0usize;
     let mut new_found = 0usize;
     while tried < budget && new_found < 20 {
         let hs: Vec<Hist> = (0..400).map(|_| gen_history(&mut rng, true).0).collect();
@@ -770,11 +766,10 @@ fn search(a: &Args) {
         for (h, obs) in hs.iter().zip(all_obs.iter()) {
             let (trace, ret, agrees, class) = judge(h, obs);
             if !fresh_increasing(&trace) || !fresh_increasing(&ret) {
-                // failures inside a recorded class (and behaving as the model says) are listed a few
-                // times only: the search is for failures that no finding explains
-                let c = if agrees { class } else { 0 };
-                if c == 0 { new_found += 1; fails.push(format!("{} class={}", show_hist(h), c)); }
-                else if known_kept < 10 { known_kept += 1; fails.push(format!("{} class={}", show_hist(h), c)); }
+                // no finding is open: every failure is a violation ("regime" names the former class it touches)
+                let _ = agrees;
+                new_found += 1;
+                fails.push(format!("{} class=0 regime={}", show_hist(h), class));
             }
             tried += 1;
         }
